@@ -267,6 +267,8 @@ fn rand_adp(
     nontrivial: &(dyn Fn(&AFacts) -> bool + Sync),
 ) -> Outcome {
     let seed = p.seed;
+    let small = AGen { min_ops: g.min_ops.min(2), max_ops: g.max_ops.min(12), ..g.clone() };
+    let g = if p.san() { &small } else { g };
     p.cases(gen_name, n, |i, out| {
         let mut rng = Rng::new(mix(seed, mix(hash_of(&gen_name), i)));
         let (chain, batched) = chain_gen(&mut rng);
